@@ -169,8 +169,11 @@ func c10Normalise(c c10Case) c10Case {
 			if t.Fb != nil {
 				f = *t.Fb
 			}
-			f.Type %= 3
+			// every type byte is kept (quantifier: "every framebuffer type"); an undefined type carries at most 12 unspecified bytes
 			col := append([]byte{}, f.Color...)
+			if f.Type > 2 && len(col) > 12 {
+				col = col[:12]
+			}
 			switch f.Type {
 			case 0:
 				nc := 0
@@ -535,13 +538,16 @@ func c10FromBytes(data []byte) c10Case {
 			}
 			t.Mmap = m
 		case "fb":
-			f := &c10Fb{Addr: r.u64(), Pitch: r.u32(), Width: r.u32(), Height: r.u32(), Bpp: r.u8(), Type: r.u8() % 3, Reserved: r.u16()}
+			f := &c10Fb{Addr: r.u64(), Pitch: r.u32(), Width: r.u32(), Height: r.u32(), Bpp: r.u8(), Type: r.u8(), Reserved: r.u16()}
 			switch f.Type {
 			case 0:
 				nc := int(r.u8()) % (c10MaxPalette + 1)
 				f.Color = append([]byte{byte(nc), 0, 0, 0}, r.bytes(3*nc)...)
 			case 1:
 				f.Color = r.bytes(6)
+			case 2:
+			default:
+				f.Color = r.bytes(int(r.u8()) % 13)
 			}
 			t.Fb = f
 		case "elf":
@@ -603,6 +609,10 @@ func c10ToBytes(c c10Case) []byte {
 				b = append(b, f.Color[0])
 				b = append(b, f.Color[4:]...)
 			case 1:
+				b = append(b, f.Color...)
+			case 2:
+			default:
+				b = append(b, byte(len(f.Color)))
 				b = append(b, f.Color...)
 			}
 		case "elf":
